@@ -70,6 +70,19 @@ Theorem C04_verified_for_domain : forall cfg dial t c p s,
    valid_for c (match t_servername t with [] => t_domain t | n => n end) = true).
 Proof. exact connect_verified_for_domain. Qed.
 
+(* Whether crypto/tls RESUMED a session of an earlier connection of the client (ClientSessionCache; the
+   session is cached at handshake time, also when the domain check then refused the certificate) does
+   not matter to the outcome of StartTLS: the domain check runs on every connection ... *)
+Theorem C04_resumed_session_irrelevant : forall t c resumed, start_tls_r t c resumed = start_tls t c.
+Proof. exact start_tls_resumed_irrelevant. Qed.
+
+(* ... and it must: a StartTLS that trusts a resumed session accepts, on the second connection, a
+   certificate that is valid for ServerName only. *)
+Theorem C04_skip_on_resume_refuted :
+  exists t c, t_skip t = false /\ valid_for c (t_domain t) = false /\
+              start_tls_on true t c false = false /\ start_tls_on true t c true = true.
+Proof. exact start_tls_skip_on_resume_refuted. Qed.
+
 (* STARTTLS not offered / <failure/> / garbage / close / failed handshake, with Insecure = false:
    no success and no authentication request at all ... *)
 Theorem C04_starttls_replies : forall cfg dial tls p script,
@@ -119,6 +132,27 @@ Proof. intros. apply conn_trace_during_refused. Qed.
 Theorem C04_resend_gated : forall g,
   g_closed g = true -> gstep g GResend = (g, [Refused]) /\ gstep g GSend = (g, [Refused]).
 Proof. intros g Hc. split; [apply gstep_resend_closed; exact Hc|cbn; rewrite Hc; reflexivity]. Qed.
+
+(* Writers in flight (Gate.gstep2): a send is not atomic -- gate check, write on whatever connection the
+   transport holds at the time of the write, release.  For EVERY interleaving of senders entering and
+   leaving, retransmissions, and connection attempts that the read/write lock permits, from a new
+   Client, with Insecure = false: nothing is ever written on a connection that is not TLS ... *)
+Theorem C04_inflight_writes_safe : forall es s rs,
+  grun2 false true gate2_0 es = Some (s, rs) -> Forall (fun r => r <> Written false) rs.
+Proof. intros es s rs H. exact (proj2 (grun2_safe es _ _ _ gate2_0_inv H)). Qed.
+
+(* ... because the dial of connect() happens only when every write in flight has returned ... *)
+Theorem C04_dial_after_inflight_writes : forall insecure s d x,
+  gstep2 insecure true s (GE (GBegin d)) = Some x -> h_inflight s = 0%nat.
+Proof. exact dial_after_writes. Qed.
+
+(* ... and with the lock released right after the check it is false: a sender that passed the gate on
+   a TLS session is overtaken by the reconnection and writes on its new clear-text connection; the
+   lock does not permit that interleaving. *)
+Theorem C04_lock_released_early_refuted :
+  option_map snd (grun2 false false gate2_0 overtaken_trace) = Some [Written false] /\
+  grun2 false true gate2_0 overtaken_trace = None.
+Proof. exact lock_released_early_refuted. Qed.
 
 (* WebSocket transport (the opening handshake may be answered by redirects): authentication data goes
    out in clear text only when the application allowed insecure connections AND no URL of the chain,
@@ -189,6 +223,11 @@ Print Assumptions C04_no_cleartext.
 Print Assumptions C04_stale_flags_refuted.
 Print Assumptions C04_flags_sound.
 Print Assumptions C04_verified_for_domain.
+Print Assumptions C04_resumed_session_irrelevant.
+Print Assumptions C04_skip_on_resume_refuted.
+Print Assumptions C04_inflight_writes_safe.
+Print Assumptions C04_dial_after_inflight_writes.
+Print Assumptions C04_lock_released_early_refuted.
 Print Assumptions C04_starttls_replies.
 Print Assumptions C04_starttls_refusals_permanent.
 Print Assumptions C04_sends_gated.
